@@ -255,6 +255,7 @@ inductive Block
 
 inductive Err
   | typeError   -- iterating `None`
+  | notFound    -- `exceptions.NotFound`: no stored race with that id
 deriving DecidableEq
 
 def unitOf (u : UnitSrc) (b : Scope) : Option Str :=
@@ -334,6 +335,62 @@ def Block.specs : Block → List RowSpec
   | .tasks r => r
 
 def allSpecs (blocks : List Block) : List RowSpec := blocks.flatMap Block.specs
+
+/-! ### sizes with a value-dependent unit (`_report_disk_usage_stats_per_field`) -/
+
+/-- the units `convert._bytes_to_human` chooses from -/
+inductive HUnit
+  | gb | mb | kb | bytes
+deriving DecidableEq
+
+def HUnit.str : HUnit → Str
+  | .gb => ['G', 'B']
+  | .mb => ['M', 'B']
+  | .kb => ['k', 'B']
+  | .bytes => ['b', 'y', 't', 'e', 's']
+
+/-- `partial(convert.bytes_to_unit, unit)` -/
+def HUnit.fmt : HUnit → Fmt
+  | .gb => .bytesToGb
+  | .mb => .bytesToMb
+  | .kb => .bytesToKb
+  | .bytes => .ident
+
+/-- bytes per unit -/
+def HUnit.factor : HUnit → Rat
+  | .gb => 1073741824
+  | .mb => 1048576
+  | .kb => 1024
+  | .bytes => 1
+
+/-- `convert.bytes_to_human_unit(b)`: the largest unit in which `|b|` exceeds 1 -/
+def humanUnit (v : Val) : HUnit :=
+  let g := (Fmt.bytesToGb.apply v).rat
+  if g > 1 ∨ g < -1 then .gb else
+  let m := (Fmt.bytesToMb.apply v).rat
+  if m > 1 ∨ m < -1 then .mb else
+  let k := (Fmt.bytesToKb.apply v).rat
+  if k > 1 ∨ k < -1 then .kb else .bytes
+
+/-- Python `min(a, b)` -/
+def pymin (a b : Val) : Val := if b.rat < a.rat then b else a
+
+/-- one row of the per-field disk usage: the unit is chosen from the smaller of the two values and used for
+    baseline, contender and difference -/
+def diskRow (plain incGood pctAbs : Bool) (label : Str) (bv cv : Val) : Row :=
+  let u := humanUnit (pymin bv cv)
+  mkRow plain ⟨[], label, .const u.str, incGood, u.fmt, false, pctAbs⟩ [] (some u.str) bv cv
+
+/-! ### `reporter.compare(cfg, baseline_id, contender_id)` on a file race store -/
+
+/-- the stored races: one directory per race id (`FileRaceStore`), hence an exact-name lookup -/
+def findRace (id : Str) (store : List (Str × Stats)) : Option Stats := lookup id store
+
+def compareById (blocks : List Block) (plain showProc : Bool) (store : List (Str × Stats)) (bid cid : Str) :
+    Except Err (List Row) :=
+  match findRace bid store, findRace cid store with
+  | some b, some c => metricsTable blocks plain showProc b c
+  | _, _ => .error .notFound
 
 /-- substring test used by the direction table -/
 def hasInfix (pat : Str) : Str → Bool
